@@ -284,6 +284,9 @@ func planQuick(ck *vlib.Check, ws []*workload) []runCase {
 				if c.Timing && w.Cost(ss[0]) > 2_000_000 {
 					continue // dnn training in timing mode: minutes per run, thorough tier only
 				}
+				if w.Cost(ss[0]) > 8_000_000 {
+					continue // dnn training on four plain GPUs in emulation: 1-2 min per run, thorough tier only
+				}
 				pool = append(pool, pair{w, c})
 			}
 		}
@@ -316,6 +319,32 @@ func planQuick(ck *vlib.Check, ws []*workload) []runCase {
 			continue
 		}
 		cs := mkCase(pr.w, ok[r.Intn(len(ok))], pr.c, fmt.Sprintf("shape%d-%s", k, pr.w.Name), ck.Seed*1000+300+int64(k))
+		cs.Parallel = r.Chance(1, 5) && pr.w.parallelOK(pr.c.Arch)
+		cases = append(cases, cs)
+	}
+	// 1c: at least 4 seeded timing cases of multi-launch workloads
+	var ml []pair
+	for _, w := range ws {
+		if !w.MultiLaunch {
+			continue
+		}
+		for _, c := range w.classes() {
+			if c.Timing && len(admissibleSizes(w, c, capFor(c, true))) > 0 {
+				ml = append(ml, pair{w, c})
+			}
+		}
+	}
+	for k, i := range r.Perm(len(ml)) {
+		if k >= 4 {
+			break
+		}
+		pr := ml[i]
+		ss := admissibleSizes(pr.w, pr.c, capFor(pr.c, true))
+		n := len(ss)
+		if n > 3 {
+			n = 3
+		}
+		cs := mkCase(pr.w, ss[r.Intn(n)], pr.c, fmt.Sprintf("ml%d-%s", k, pr.w.Name), ck.Seed*1000+400+int64(k))
 		cs.Parallel = r.Chance(1, 5) && pr.w.parallelOK(pr.c.Arch)
 		cases = append(cases, cs)
 	}
